@@ -456,10 +456,39 @@ func (g *Gen) ScanNearMiss() string {
 	case 4: // truncated special word
 		return sign + word[:g.R.Range(1, 2)] + []string{"", "x", "é"}[g.R.N(3)]
 	case 5: // numeral followed by other characters
-		return g.ValidLiteral(true, false) + []string{"x", "é", ",", "f", "p3", "İ", "%"}[g.R.N(7)]
+		if g.R.P(1, 2) {
+			return g.ValidLiteral(true, false) + []string{"x", "é", ",", "f", "p3", "İ", "%"}[g.R.N(7)]
+		}
+		return g.ValidLiteral(true, false) + string(g.followerRune())
 	}
 	// other characters in front
 	return []string{"x", "é", "$", "#", "０"}[g.R.N(5)] + g.ValidLiteral(true, false)
+}
+
+// followerRune draws a character that may directly follow a numeral in a
+// text: any rune, with weight on those that alias a character of the numeral
+// alphabet when truncated to a byte or folded (a classifier that looks at
+// byte(r), r&0x7f or a case/width fold sees a digit, a sign or an 'e').
+func (g *Gen) followerRune() rune {
+	const alphabet = "0123456789.eE+-_"
+	for {
+		var r rune
+		switch g.R.N(5) {
+		case 0:
+			r = rune(alphabet[g.R.N(len(alphabet))]) + rune(0x100*g.R.Range(1, 0x10ff))
+		case 1:
+			r = rune(alphabet[g.R.N(len(alphabet))]) + rune(0x80*g.R.Range(1, 0x1ff))
+		case 2: // full-width and other digit look-alikes
+			r = []rune{'０', '９', '．', 'ｅ', '＋', '－', '٣', '𝟗', '₅', '⁵', '−', '‐'}[g.R.N(12)]
+		case 3:
+			r = rune(g.R.Range(0x80, 0xffff))
+		default:
+			r = rune(g.R.Range(0x10000, 0x10ffff))
+		}
+		if r >= 0x80 && r <= 0x10ffff && (r < 0xd800 || r > 0xdfff) && r != 0x85 && r != 0xa0 && r != 0x1680 && !(r >= 0x2000 && r <= 0x200a) && r != 0x2028 && r != 0x2029 && r != 0x202f && r != 0x205f && r != 0x3000 {
+			return r // (Unicode spaces end a token in package fmt; not drawn)
+		}
+	}
 }
 
 // Literal mixes valid and invalid strings.
